@@ -9,15 +9,19 @@
 EXTENDS Integers, Sequences, FiniteSets
 CONSTANTS OpsPool,      \* set of operation records that may be issued (each at most once)
           MaxOps, FeeOf, MinAda
-VARIABLES issued, pending, st, phase
-vars == <<issued, pending, st, phase>>
+VARIABLES issued,       \* the calls made so far, in order (operation records, plus the markers AddChange / Build)
+          pending,      \* operations still to be issued
+          st,           \* the builder's accounting state
+          feeReq,       \* fee request: <<"none">> | <<"exact", f>> | <<"atleast", f>>  (set_fee / set_min_fee)
+          phase         \* "ops" | "balanced" | "failed" | "stale" (balancing succeeded, further calls followed) | "built" | "refused"
+vars == <<issued, pending, st, feeReq, phase>>
 \* st: the builder's accounting state. Certificates and the mint are HELD AS A WHOLE by the builder: set_certs_builder /
 \* set_mint_builder replace what was there (Deposit / Refund and Mint / Burn below), while the older entry point
 \* add_mint_asset_and_output works on the mint the builder holds and adds an output carrying the minted quantity (MintOut).
 \* mint is the signed net quantity of the one asset.
 Zero0 == [inC |-> 0, inA |-> 0, outC |-> 0, outA |-> 0, dep |-> 0, ref |-> 0, wd |-> 0, mint |-> 0, don |-> 0,
           fee |-> -1, chC |-> 0, chA |-> 0, burnt |-> 0]
-Init == /\ issued = <<>> /\ pending \in {S \in SUBSET OpsPool : Cardinality(S) <= MaxOps /\ \E o \in S : o.op = "AddInput"} /\ st = Zero0 /\ phase = "ops"
+Init == /\ issued = <<>> /\ pending \in {S \in SUBSET OpsPool : Cardinality(S) <= MaxOps /\ \E o \in S : o.op = "AddInput"} /\ st = Zero0 /\ feeReq = <<"none">> /\ phase = "ops"
 Apply(s, o) ==
   CASE o.op = "AddInput"  -> [s EXCEPT !.inC = @ + o.c, !.inA = @ + o.a]
     [] o.op = "AddOutput" -> [s EXCEPT !.outC = @ + o.c, !.outA = @ + o.a]
@@ -32,32 +36,63 @@ Apply(s, o) ==
 \* operations that write the same held part do not commute
 Part(o) == CASE o.op \in {"Deposit", "Refund"} -> "certs" [] o.op \in {"Mint", "Burn", "MintOut"} -> "mint" [] OTHER -> "none"
 Commuting(S) == \A x, y \in S : x # y /\ Part(x) = Part(y) => Part(x) = "none"
-Issue == /\ phase = "ops" /\ pending # {}
-         /\ \E o \in pending : issued' = Append(issued, o) /\ pending' = pending \ {o} /\ st' = Apply(st, o)
-         /\ UNCHANGED phase
+\* a call on the builder; after a successful balancing every further call makes the report stale (phase "stale").
+\* set_fee / set_min_fee only record a REQUEST; a fee that add_change_if_needed has already finalised is not touched by a later request.
+IsReq(o) == o.op \in {"SetFee", "SetMinFee"}
+Issue == /\ phase \in {"ops", "balanced", "stale", "failed"} /\ pending # {}
+         /\ \E o \in pending :
+               /\ issued' = Append(issued, o) /\ pending' = pending \ {o}
+               /\ st' = IF IsReq(o) THEN st ELSE Apply(st, o)
+               /\ feeReq' = IF o.op = "SetFee" THEN <<"exact", o.c>> ELSE IF o.op = "SetMinFee" THEN <<"atleast", o.c>> ELSE feeReq
+         /\ phase' = IF phase \in {"balanced", "stale"} THEN "stale" ELSE phase
 TotalInC(s) == s.inC + s.wd + s.ref
 TotalOutC(s) == s.outC + s.dep + s.don
 TotalInA(s) == s.inA + (IF s.mint > 0 THEN s.mint ELSE 0)
 TotalOutA(s) == s.outA + (IF s.mint < 0 THEN 0 - s.mint ELSE 0)
-\* add_change_if_needed: change = total input - total output - fee; asset change needs MinAda; small leftovers are burnt into the fee
-Balance == /\ phase = "ops" /\ pending = {}
-           /\ LET cC == TotalInC(st) - TotalOutC(st) cA == TotalInA(st) - TotalOutA(st) IN
-              IF cC < FeeOf \/ cA < 0 THEN phase' = "failed" /\ UNCHANGED st
-              ELSE IF cA > 0 THEN (IF cC - FeeOf < MinAda THEN phase' = "failed" /\ UNCHANGED st
-                                   ELSE phase' = "balanced" /\ st' = [st EXCEPT !.fee = FeeOf, !.chC = cC - FeeOf, !.chA = cA])
-              ELSE IF cC - FeeOf >= MinAda THEN phase' = "balanced" /\ st' = [st EXCEPT !.fee = FeeOf, !.chC = cC - FeeOf]
-              ELSE phase' = "balanced" /\ st' = [st EXCEPT !.fee = cC, !.burnt = cC - FeeOf]       \* leftover folded into the fee
-           /\ UNCHANGED <<issued, pending>>
-Next == Issue \/ Balance
+\* the fee a request turns a computed minimum m into (TxBuilderFee::get_new_fee / set_final_fee)
+Wanted(m) == IF feeReq[1] = "exact" THEN feeReq[2] ELSE IF feeReq[1] = "atleast" /\ feeReq[2] > m THEN feeReq[2] ELSE m
+\* add_change_if_needed, callable once (a finalised fee makes the next call fail: "Cannot calculate change if fee was explicitly
+\* specified"): change = total input - total output - fee; asset change needs MinAda; a leftover too small for a change output
+\* is folded into the fee - unless an exact fee was requested and the leftover exceeds it
+Balance == /\ phase \in {"ops", "failed"} /\ st.fee = -1 /\ \E i \in 1..Len(issued) : issued[i].op = "AddInput"
+           /\ issued[Len(issued)].op # "AddChange"          \* (a failed call repeated at once fails again: not a new behaviour)
+           /\ LET cC == TotalInC(st) - TotalOutC(st) cA == TotalInA(st) - TotalOutA(st) f0 == Wanted(FeeOf) IN
+              IF cC < f0 \/ cA < 0 THEN phase' = "failed" /\ UNCHANGED st
+              ELSE IF cA > 0 THEN (IF cC - f0 < MinAda THEN phase' = "failed" /\ UNCHANGED st
+                                   ELSE phase' = "balanced" /\ st' = [st EXCEPT !.fee = f0, !.chC = cC - f0, !.chA = cA])
+              ELSE IF cC - f0 >= MinAda THEN phase' = "balanced" /\ st' = [st EXCEPT !.fee = f0, !.chC = cC - f0]
+              ELSE IF feeReq[1] = "exact" /\ cC > feeReq[2] THEN phase' = "failed" /\ UNCHANGED st
+              ELSE phase' = "balanced" /\ st' = [st EXCEPT !.fee = IF feeReq[1] = "exact" THEN feeReq[2] ELSE cC, !.burnt = cC - f0]       \* leftover folded into the fee
+           /\ issued' = Append(issued, [op |-> "AddChange", c |-> 0, a |-> 0])
+           /\ UNCHANGED <<pending, feeReq>>
+\* build_tx: validate_fee (the fee in force is at least the minimum) and validate_balance (the ledger equation on the builder's own
+\* totals, change outputs included), then the transaction
+FeeInForce == IF st.fee # -1 THEN st.fee ELSE IF feeReq[1] = "none" THEN -1 ELSE feeReq[2]
+Equation(f) == /\ TotalInC(st) = TotalOutC(st) + st.chC + f
+               /\ TotalInA(st) = TotalOutA(st) + st.chA
+Build == /\ phase \in {"ops", "balanced", "stale", "failed"} /\ issued # <<>>
+         /\ phase' = IF FeeInForce >= FeeOf /\ Equation(FeeInForce) THEN "built" ELSE "refused"
+         /\ issued' = Append(issued, [op |-> "Build", c |-> 0, a |-> 0])
+         /\ UNCHANGED <<pending, st, feeReq>>
+Next == Issue \/ Balance \/ Build
 \* ---- L0
 Balanced == phase = "balanced" =>
-   /\ TotalInC(st) = TotalOutC(st) + st.chC + st.fee
-   /\ TotalInA(st) = TotalOutA(st) + st.chA
-   /\ st.fee >= FeeOf
+   /\ Equation(st.fee)
+   \* (a fee the caller fixed below the minimum is taken as it is by the balancing call; it is the validating build that refuses it)
+   /\ (feeReq[1] # "exact" => st.fee >= FeeOf)
    /\ (st.chC > 0 => st.chC >= MinAda)
+   \* a requested minimum is a lower bound, a fixed fee is used exactly (requests made before the balancing call)
+   /\ (feeReq[1] = "atleast" => st.fee >= feeReq[2])
+   /\ (feeReq[1] = "exact" => st.fee = feeReq[2])
+\* whatever a validating build produces - straight after balancing, after further calls, or without any balancing call when the
+\* caller fixed the fee and the outputs himself - satisfies the equation with a sufficient fee
+BuiltOk == phase = "built" => FeeInForce >= FeeOf /\ Equation(FeeInForce)
+\* a build straight after a successful balancing never refuses
+BalancedBuilds == ~(phase = "refused" /\ Len(issued) >= 2 /\ issued[Len(issued) - 1].op = "AddChange" /\ st.fee # -1 /\ ~(feeReq[1] = "exact" /\ feeReq[2] < FeeOf))
 \* the order of issuing the operations does not matter for the accounting - as long as no two of them write the same held part
 OrderIrrelevant == phase = "ops" /\ pending = {} /\ Commuting({issued[i] : i \in 1..Len(issued)}) =>
-   st = LET RECURSIVE F(_,_) F(S, s) == IF S = {} THEN s ELSE LET o == CHOOSE x \in S : TRUE IN F(S \ {o}, Apply(s, o)) IN F({issued[i] : i \in 1..Len(issued)}, Zero0)
+   st = LET Vals == {issued[i] : i \in 1..Len(issued)} \ {o \in {issued[i] : i \in 1..Len(issued)} : IsReq(o)}
+            RECURSIVE F(_,_) F(S, s) == IF S = {} THEN s ELSE LET o == CHOOSE x \in S : TRUE IN F(S \ {o}, Apply(s, o)) IN F(Vals, Zero0)
 \* ... and where they do, the last writer wins (what the replaced call contributed is gone, not added)
 LastWriterWins == phase = "ops" /\ pending = {} =>
    /\ (\E i \in 1..Len(issued) : issued[i].op \in {"Deposit", "Refund"}) =>
